@@ -88,7 +88,7 @@ def handle (ws : List String) : String :=
   | "exspec" :: sup :: fl :: fi :: rest =>
     match flag sup, flag fl, flag fi, parseAcc rest with
     | some sup, some fl, some fi, some (acc, rest) =>
-      match parseTree rest with
+      match checkedTree rest with
       | some (t, []) => match exSpec acc fl fi sup t with
         | some r => r.render
         | none => "none"
@@ -100,7 +100,7 @@ def handle (ws : List String) : String :=
     | some sup, some cs, some (ns, rest) =>
       match takeStrs rest with
       | some (labels, rest) =>
-        match parseTree rest with
+        match checkedTree rest with
         | some (t, []) =>
           if v == "prune" then (match pruneWithLabels cs ns labels sup t with | some r => r.render | none => "err")
           else if v == "retain" then (match retainWithLabels cs ns labels sup t with | some r => r.render | none => "err")
@@ -114,7 +114,7 @@ def handle (ws : List String) : String :=
   | "upd" :: r :: sup :: "prune" :: rest =>
     match parseRooted r, flag sup, takeNats rest with
     | some r, some sup, some (P, rest) =>
-      match parseTree rest with
+      match checkedTree rest with
       | some (t, []) => match pruneTaxaUpd r (fun k => P.contains k) sup t with
         | some x => renderUpd x
         | none => "err"
@@ -125,7 +125,7 @@ def handle (ws : List String) : String :=
     | some r, some sup, some (ns, rest) =>
       match takeNats rest with
       | some (K, rest) =>
-        match parseTree rest with
+        match checkedTree rest with
         | some (t, []) => match retainTaxaUpd r ns (fun k => K.contains k) sup t with
           | some x => renderUpd x
           | none => "err"
@@ -135,21 +135,22 @@ def handle (ws : List String) : String :=
   | "upd" :: r :: sup :: "filter" :: rest =>
     match parseRooted r, flag sup, parseAcc rest with
     | some r, some sup, some (acc, rest) =>
-      match parseTree rest with
+      match checkedTree rest with
       | some (t, []) => match filterLeavesUpd r acc sup t with
         | some x => renderUpd x
         | none => "err"
       | _ => "bad-op"
     | _, _, _ => "bad-op"
   | "upd" :: r :: sup :: "subtree" :: i :: rest =>
-    match parseRooted r, flag sup, i.toNat?, parseTree rest with
-    | some r, some sup, some i, some (t, []) => if i == t.id then "err" else renderUpd (pruneSubtreeUpd r i sup t)
+    match parseRooted r, flag sup, i.toNat?, checkedTree rest with
+    | some r, some sup, some i, some (t, []) =>
+      if (t.find? i).isNone then "bad-target" else if i == t.id then "err" else renderUpd (pruneSubtreeUpd r i sup t)
     | _, _, _, _ => "bad-op"
   -- restrict <sup> <acc> <tree>: the specification itself
   | "restrict" :: sup :: rest =>
     match flag sup, parseAcc rest with
     | some sup, some (acc, rest) =>
-      match parseTree rest with
+      match checkedTree rest with
       | some (t, []) => match restrict acc sup t with
         | some r => r.render
         | none => "none"
@@ -159,7 +160,7 @@ def handle (ws : List String) : String :=
   | "prune" :: sup :: fl :: fi :: rest =>
     match flag sup, flag fl, flag fi, takeNats rest with
     | some sup, some fl, some fi, some (P, rest) =>
-      match parseTree rest with
+      match checkedTree rest with
       | some (t, []) => match pruneTaxa (fun k => P.contains k) fl fi sup t with
         | some r => r.render
         | none => "err"
@@ -171,7 +172,7 @@ def handle (ws : List String) : String :=
     | some sup, some (ns, rest) =>
       match takeNats rest with
       | some (K, rest) =>
-        match parseTree rest with
+        match checkedTree rest with
         | some (t, []) => match retainTaxa ns (fun k => K.contains k) sup t with
           | some r => r.render
           | none => "err"
@@ -182,7 +183,7 @@ def handle (ws : List String) : String :=
   | "filter" :: sup :: rc :: rest =>
     match flag sup, flag rc, parseAcc rest with
     | some sup, some rc, some (acc, rest) =>
-      match parseTree rest with
+      match checkedTree rest with
       | some (t, []) => match filterLeaves acc rc sup t with
         | some r => renderRem r
         | none => "err"
@@ -190,21 +191,22 @@ def handle (ws : List String) : String :=
     | _, _, _ => "bad-op"
   -- plwt <sup> <recursive> <tree>
   | "plwt" :: sup :: rc :: rest =>
-    match flag sup, flag rc, parseTree rest with
+    match flag sup, flag rc, checkedTree rest with
     | some sup, some rc, some (t, []) => match pruneLeavesWithoutTaxa rc sup t with
       | some r => renderRem r
       | none => "err"
     | _, _, _ => "bad-op"
   -- subtree <sup> <node id> <tree>
   | "subtree" :: sup :: i :: rest =>
-    match flag sup, i.toNat?, parseTree rest with
-    | some sup, some i, some (t, []) => if i == t.id then "err" else (pruneSubtree i sup t).render
+    match flag sup, i.toNat?, checkedTree rest with
+    | some sup, some i, some (t, []) =>
+      if (t.find? i).isNone then "bad-target" else if i == t.id then "err" else (pruneSubtree i sup t).render
     | _, _, _ => "bad-op"
   -- extract <sup> <fl> <fi> <acc> <tree>
   | "extract" :: sup :: fl :: fi :: rest =>
     match flag sup, flag fl, flag fi, parseAcc rest with
     | some sup, some fl, some fi, some (acc, rest) =>
-      match parseTree rest with
+      match checkedTree rest with
       | some (t, []) => match extractTree acc fl fi sup t with
         | .ok r => r.render
         | .seedDeletion => "SeedNodeDeletion"
@@ -215,7 +217,7 @@ def handle (ws : List String) : String :=
   | "restrictA" :: sup :: rest =>
     match flag sup, parseAcc rest with
     | some sup, some (acc, rest) =>
-      match parseTree rest with
+      match checkedTree rest with
       | some (t, []) => match restrictA acc t with
         | some r => (supIf sup r).render
         | none => "none"
@@ -225,16 +227,17 @@ def handle (ws : List String) : String :=
   | "extractnode" :: sup :: fl :: fi :: i :: rest =>
     match flag sup, flag fl, flag fi, i.toNat?, parseAcc rest with
     | some sup, some fl, some fi, some i, some (acc, rest) =>
-      match parseTree rest with
-      | some (t, []) => match extractNode acc fl fi sup t i with
+      match checkedTree rest with
+      | some (t, []) => if (t.find? i).isNone then "bad-target" else match extractNode acc fl fi sup t i with
         | .ok r => r.render
         | .seedDeletion => "SeedNodeDeletion"
         | .valueError => "ValueError"
       | _ => "bad-op"
     | _, _, _, _, _ => "bad-op"
   -- measure <tree>: the measurement functions of the clause theorems: clade masks (sorted) | all leaf-to-leaf path lengths
+  -- (a path all of whose edges lack a length has length `none`, printed as 0: for path lengths "no length" counts as 0)
   | "measure" :: rest =>
-    match parseTree rest with
+    match checkedTree rest with
     | some (t, []) =>
       natList (sortNat t.masksPost) ++ " | " ++
         " ".intercalate ((allDists t).map (fun e => s!"{e.1}:{e.2.1}:{match e.2.2 with | some f => f.render | none => "0"}"))
